@@ -707,7 +707,9 @@ def run_c2(spec):
         w = H.Client(srv, "alice", v=tuple(sv))
         r = w.one(F.register_item("SymmetricKey", label="c16", extra_attrs=attrs))
         if r["status"] != "SUCCESS":
-            raise core.HarnessError("c2 set-up Register failed: %r" % (r,))
+            # cannot happen on the unchanged tree (then the run is vacuous for c2 and the class
+            # shows it); a mutated gate may refuse the set-up - parts b/c1/f judge that
+            return [], False, classes + ["c2:SETUP-REGISTER-REFUSED"]
         uid = r["payload"]["uid"]
         if read == "GetAttributes/all":
             item = {"op": "GetAttributes", "uid": uid}
